@@ -22,7 +22,7 @@ import ast
 from fractions import Fraction
 
 from .core import AnalysisError, unparse
-from .poly import Rat, as_rat, sqrt_of, func_atom, atom_info
+from .poly import Rat, as_rat, sqrt_of, func_atom, atom_info, split_content, _frac_gcd, p_content
 
 
 class Arr:
@@ -60,7 +60,35 @@ class Arr:
     def key(self):
         def k(d):
             return "[" + ",".join(k(x) for x in d) + "]" if isinstance(d, list) else vkey(d)
-        return k(self.data)
+        base = self._opaque_base()
+        return base if base is not None else k(self.data)
+
+    def _opaque_base(self):
+        """if every entry [i,j,..] is the atom `base[i,j,..]` of one opaque base, that base"""
+        shape = self.shape
+        if not shape or 0 in shape:
+            return None
+        base = None
+        import itertools
+        for idx in itertools.product(*[range(n) for n in shape]):
+            d = self.data
+            for i in idx:
+                d = d[i]
+            if not isinstance(d, Rat) or len(d.num) != 1 or d.den != {(): 1}:
+                return None
+            (m, c), = d.num.items()
+            if c != 1 or len(m) != 1 or m[0][1] != 1:
+                return None
+            suffix = "[%s]" % ",".join(str(i) for i in idx)
+            a = m[0][0]
+            if not a.endswith(suffix):
+                return None
+            b = a[:-len(suffix)]
+            if base is None:
+                base = b
+            elif base != b:
+                return None
+        return base
 
     def __repr__(self):
         return "Arr" + self.key()
@@ -826,7 +854,7 @@ class Evaluator:
             return self.apply_unary(name, v, node)
         if name == "arctan2" and len(args) == 2:
             return func_atom("arctan2", scalar(args[0]), scalar(args[1]))
-        if name in ("array", "asarray", "ascontiguousarray", "asfarray"):
+        if name in ("array", "asarray", "ascontiguousarray", "asfarray") and 1 <= len(args) <= 2:
             v = args[0]
             if isinstance(v, Arr):
                 return v.copy()
@@ -870,7 +898,7 @@ class Evaluator:
                 return Opaque("cross(%s,%s)" % (vkey(args[0]), vkey(args[1])))
             a, b = [scalar(x) for x in A.data], [scalar(x) for x in B.data]
             return Arr([a[1] * b[2] - a[2] * b[1], a[2] * b[0] - a[0] * b[2], a[0] * b[1] - a[1] * b[0]])
-        if name == "linalg.norm":
+        if name == "linalg.norm" and len(args) == 1 and set(kwargs) <= {"axis"}:
             v = args[0]
             A = v if isinstance(v, Arr) else materialise(v)
             if A is None or len(A.shape) != 1:
@@ -889,6 +917,13 @@ class Evaluator:
                 shape = v.shape
             if isinstance(v, Opaque) and v.base.startswith("inv(") and not v.idx:
                 return Opaque(v.base[4:-1], shape)
+            if A is not None and len(shape) == 2:
+                # homogeneity: inv(s*M) = inv(M)/s for the common positive content s = q*pi^k
+                content, prim = array_content(A)
+                inv = Opaque("inv(%s)" % prim.key(), shape)
+                if content.equals(1):
+                    return inv
+                return self.binop(ast.Div(), inv, content, node)
             return Opaque("inv(%s)" % vkey(v), shape)
         if name == "linalg.det" and len(args) == 1:
             return Rat.atom("det(%s)" % vkey(args[0]))
@@ -896,6 +931,27 @@ class Evaluator:
                     "fliplr", "flipud", "mod", "allclose", "random.rand", "linalg.eig", "empty"):
             return self.opaque_call(name, args, kwargs, node)
         raise AnalysisError("E3: numpy function %s unsupported (line %d)" % (name, node.lineno))
+
+
+def array_content(A: Arr):
+    """common positive content q*pi^k of all entries; -> (content Rat, primitive Arr)"""
+    from fractions import Fraction as F
+    flat = [scalar(x) for x in A.flat()]
+    q = F(0)
+    k = None
+    for x in flat:
+        if x.is_zero():
+            continue
+        _c, qx, kx, _p = split_content(x)
+        q = _frac_gcd(q, qx)
+        k = kx if k is None else min(k, kx)
+    if not q:
+        return Rat.const(1), A
+    content = Rat.const(q) * (Rat.atom("pi") ** k if k else Rat.const(1))
+
+    def rec(d):
+        return [rec(x) for x in d] if isinstance(d, list) else scalar(d) / content
+    return content, Arr(rec(A.data))
 
 
 def sym_array(name, shape):
